@@ -282,15 +282,29 @@ pub fn flatten(grammar_json: &str) -> Result<Flat, String> {
         prods.push(out);
     }
     if total > 60_000 { return Err("grammar too large for the model check".into()); }
-    // variables the file must describe: the start rule, non-terminal extras, everything referenced by a step
+    // variables the file must describe: everything REACHABLE from the start rule and the non-terminal extras
+    // (the generator drops rules nothing reachable refers to, and with them their tokens)
+    let inl_set: Vec<bool> = (0..var_names.len()).map(|v| cx.inline.contains(&var_names[v])).collect();
     let mut used = vec![false; prods.len()];
-    used[0] = true;
+    let mut stack: Vec<usize> = vec![0];
     for e in g["extras"].as_array().cloned().unwrap_or_default() {
-        if let Some(n) = e["name"].as_str() { if let Some(p) = var_names.iter().position(|x| x == n) { used[p] = true; } }
+        if let Some(n) = e["name"].as_str() { if let Some(p) = var_names.iter().position(|x| x == n) { stack.push(p); } }
     }
-    for ps in &prods { for p in ps { for (s, _, _) in p { if *s >= ntok { used[*s - ntok] = true; } } } }
-    // the copies the inlining will refer to
-    for ((_, _, _), v) in clone_of.iter() { used[*v] = true; }
+    while let Some(v) = stack.pop() {
+        if used[v] { continue; }
+        used[v] = true;
+        for p in &prods[v] {
+            for (s, _, al) in p {
+                if *s < ntok { continue; }
+                let w = *s - ntok;
+                if !used[w] { stack.push(w); }
+                // an aliased reference to an inlined rule: the copies (under that alias) of the rules its body refers to
+                if inl_set[w] { if let Some((a, named)) = al {
+                    for ((_, ca, cn), cv) in clone_of.iter() { if ca == a && cn == named && !used[*cv] { stack.push(*cv); } }
+                } }
+            }
+        }
+    }
     let inl: Vec<usize> = (0..var_names.len()).filter(|v| cx.inline.contains(&var_names[*v])).collect();
     for v in &inl { used[*v] = false; }
     let roots = (0..prods.len()).filter(|v| used[*v]).collect();
